@@ -361,6 +361,8 @@ def is_none_z(sv: SV) -> z3.BoolRef:
         return sv.z == TRI_N
     if isinstance(sv.td, TRefT):
         return sv.z == NONE
+    if sv.td.name == "str|None":
+        return sv.td.sort.is_os_none(sv.z)
     return z3.BoolVal(False)
 
 
